@@ -250,7 +250,7 @@ class TreeSim(taps.Sim):
             return q * price * mult + 0.5 * abs(q) * spread * mult + comm(q, price * mult)
 
         flags = {"integer": integer, "side": "buy" if amount > 0 else "sell", "from": "flat" if abs(pos0) < TOL else ("long" if pos0 > 0 else "short")}
-        flags["amount_ge_5e7"] = bool(abs(amount) >= 5e7)
+        flags["amount_ge_2pow25"] = bool(abs(amount) >= 2.0 ** 25)  # (from 3.36e7 on one ulp of the outlay is 7.5e-9: the absolute 1e-8 closeness test is at float resolution)
         bad_price = (price != price) or abs(price) < TOL
         try:
             r = orig(sec, amount, update)
@@ -526,7 +526,9 @@ class TreeSim(taps.Sim):
         except Exception as e:  # noqa
             msg = str(e)
             if any(msg.startswith(s) for s in SIZING_STEMS):
-                self.c10("sizing_exception", "%s: %s" % (what, msg[:120]), {"exc": "sizing", "stem": msg[:24]})
+                la = self.last_sec_alloc
+                # (the regime of the failing search, as the C05 oracle records it: position mode and size of the amount)
+                self.c10("sizing_exception", "%s: %s" % (what, msg[:120]), {"exc": "sizing", "stem": msg[:24], "integer": bool(self.cfg.get("integer")), "amount_ge_2pow25": bool(la is not None and abs(la[1]) >= 2.0 ** 25)})
                 raise Stop("sizing_exception")
             if msg.startswith("Cannot allocate capital to "):
                 name = msg[len("Cannot allocate capital to "):].split(" because")[0]
